@@ -65,6 +65,7 @@ class ConservationOracle(Oracle):
                 e = outcome["exc"]
                 self.res.violate(self.sig(h, "granted_get_failed", type(e).__name__),
                                  "get with a granted, un-cancelled own token raised %s: %s" % (type(e).__name__, e))
+                return      # the case ends here; what the failed call did to the store is unknown
             else:
                 v = outcome["value"]
                 prev = h.got_items[:-1]
